@@ -1,4 +1,6 @@
 import Chess.Lemmas.Bounds
+import Chess.Lemmas.Autoplay
+import Chess.Lemmas.ScoreRange
 
 /-!
 # C15 — unchecked fast paths stay within bounds
@@ -90,6 +92,22 @@ theorem move_buffer_small_material {g : Game} (h : ownCount g ≤ 4) : g.pseudoM
 theorem move_buffer_of_hypothesis (h : MoveCountBound) {g : Game} (hr : Reach g) :
     g.pseudoMoves.length ≤ Gen.movesCap := h g hr
 
+/-- **C15.7 self-play of unbounded length** (`autoplay.rs`, modelled in `Chess/Model/Autoplay.lean`:
+one table for the whole game, a fresh flag per move cut by the timer at ANY poll): every game the
+loop searches is reachable and shorter than the guard — so C15.1–C15.5 apply to it and the search
+that follows has its stack room. Under the Zobrist hypothesis of C06 (a colliding table entry could
+otherwise make the search answer with a move of another position). -/
+theorem selfplay_of_any_length_stays_in_bounds (hz : ZobristOk) (g0 : Game) (h0 : Uci.defaultGame = some g0)
+    (rounds : List (Nat → Bool)) :
+    ∀ g ∈ Chess.Auto.run rounds ⟨g0, {}⟩, Reach g ∧ g.len < Gen.autoLenGuard ∧ g.len < Gen.lenGuard :=
+  Chess.Auto.selfplay_stays_in_bounds hz g0 h0 rounds
+
+/-- **C15.8 the reader's material bound is an invariant of play** (so "positions with many promoted
+pieces" never exceed what the buffers and the 16-bit score were sized for): one king at most and
+pawns + promoted pieces ≤ 8 per side in every reachable game. -/
+theorem material_stays_possible {g : Game} (h : Reach g) : Chess.Range.MaterialInv g :=
+  Chess.Range.reach_material h
+
 end Chess.Props.C15
 
 #print axioms Chess.Props.C15.inventory_is_covered
@@ -104,3 +122,5 @@ end Chess.Props.C15
 #print axioms Chess.Props.C15.history_index_in_range
 #print axioms Chess.Props.C15.move_buffer_small_material
 #print axioms Chess.Props.C15.move_buffer_of_hypothesis
+#print axioms Chess.Props.C15.selfplay_of_any_length_stays_in_bounds
+#print axioms Chess.Props.C15.material_stays_possible
